@@ -212,6 +212,31 @@ pub fn run_world_at(run: &Run, net: NetID, start: Option<u64>, ages: &[u64], dif
                 }
             }
         }
+        // the same two mints as two calls into the same block, fastest first and fastest last: the speed recorded at sealing is
+        // the maximum over the whole block, whichever call demonstrated it (the engine's oracle compares after every call)
+        if let Some(fast) = acc.iter().max_by_key(|x| x.1) {
+            if let Some(slow) = acc.iter().filter(|x| x.0.inputs[0] != fast.0.inputs[0]).min_by_key(|x| x.1) {
+                for (name, first, second) in [("fastest first", fast, slow), ("fastest last", slow, fast)] {
+                    let a1 = Action::Batch { label: format!("two mints in two calls, {} (age {}): first call", name, age), txs: vec![first.0.clone()], expect_ok: true };
+                    if let StepOut::Next(n1) = eng.step(&open, &a1) {
+                        let a2 = Action::Batch { label: format!("two mints in two calls, {} (age {}): second call", name, age), txs: vec![second.0.clone()], expect_ok: true };
+                        if let StepOut::Next(n2) = eng.step(&n1, &a2) {
+                            run.outcome("mint:two-in-two-calls-accepted");
+                            let (h2, want) = (n2.view().header().dosc_speed, fast.1.max(open.view().header().dosc_speed));
+                            if h2 != want {
+                                run.violation("C18", "dosc-speed-not-the-maximum/two-calls".into(), format!("age {} ({}): the block's recorded speed is {} although {} was demonstrated in it", age, name, h2, want), n1.replay_json(Some(&a2)));
+                            }
+                            if let StepOut::Next(s2) = eng.step(&n2, &Action::Seal(None)) {
+                                let hs = s2.view().header().dosc_speed;
+                                if hs != want {
+                                    run.violation("C18", "dosc-speed-not-the-maximum/two-calls/sealed".into(), format!("age {} ({}): the sealed header records speed {} although {} was demonstrated in the block", age, name, hs, want), n2.replay_json(Some(&Action::Seal(None))));
+                                }
+                            }
+                        }
+                    }
+                }
+            }
+        }
     }
     match &record_child {
         Some(rc) => {
